@@ -3,7 +3,8 @@
 From PV Require Import Base.Prelude Store.Base Store.BaseProofs Store.Flags Store.ModSeq
      Store.ModSeqProofs Store.Mailbox Store.MailboxProofs Store.View Store.ViewProofs
      Store.Compare Store.CompareProofs Store.Session Store.SelProofs Store.System
-     Store.SystemProofs Store.StoreExamples Store.FlagsTruth Store.ClientFlags Wire.SeqSet.
+     Store.SystemProofs Store.StoreExamples Store.FlagsTruth Store.ClientFlags Store.SystemNs
+     Store.SystemNsProofs Wire.SeqSet.
 
 (* _ModSequenceMapping.update/expunge: the log stays well-formed; afterwards the
    given uids have their last record at the new mod-seq (update or expunge), every
@@ -193,3 +194,35 @@ Theorem C02_example_trace :
   /\ option_map mb_uids (aget 1%N (sy_boxes sy)) = Some [102; 103; 105]%N.
 Proof. exact demo_views. Qed.
 Print Assumptions C02_example_trace.
+
+(* convergence with mailbox CREATE / DELETE / RENAME in the histories (Store/SystemNs.v): in
+   every reachable state, for every open, non-idling connection with a selection, NOOP or
+   CHECK either finds the selection stale — the name it selected no longer denotes the
+   mailbox object it selected — and answers NO [NONEXISTENT] without changing anything (the
+   connection is told; it does not go on reporting a deleted mailbox's messages as existing),
+   or the connection's message list becomes the uid list of the mailbox object that the name
+   it selected denotes *now*, nothing pending, synchronized flags = stored flags *)
+Theorem C02_converges_ns : forall ls s x c,
+  let ns := nexec ns_empty ls in
+  sel_of (ns_sys ns) s = Some x -> nmem s (ns_closed ns) = false ->
+  ss_idle (sess_of (ns_sys ns) s) = false -> c = CNoop \/ c = CCheck ->
+  if stale ns s
+  then nstep ns (NOld (Cmd s c)) = (ns, [R (Tagged NO CNonexistent)])
+  else
+    let ns' := fst (nstep ns (NOld (Cmd s c))) in
+    exists n s' b', aget s (ns_look ns') = Some n /\ aget n (ns_names ns') = Some (sel_box s')
+      /\ sel_of (ns_sys ns') s = Some s'
+      /\ aget (sel_box s') (sy_boxes (ns_sys ns')) = Some b'
+      /\ v_sorted (sel_view s') = mb_uids b'
+      /\ v_pending (sel_view s') = []
+      /\ (forall u m, mb_alive u b' = Some m -> aget u (v_fkeys (sel_view s')) = Some (m_flags m)).
+Proof. exact ns_converges. Qed.
+Print Assumptions C02_converges_ns.
+
+(* ... and the connection's client holds that list, or nothing after BYE (the shadow
+   clients of the namespace system, = C01_clients_in_sync_ns) *)
+Theorem C02_client_converges_ns : forall ls,
+  exists cls, nshadow_exec (ns_empty, fun _ => None) ls = Some (nexec ns_empty ls, cls)
+              /\ forall s, cls s = nview (nexec ns_empty ls) s.
+Proof. exact ns_clients_in_sync. Qed.
+Print Assumptions C02_client_converges_ns.
